@@ -111,7 +111,27 @@ def d1_solver(ctx, mod):
         ok = len(c) == 1 and [unparse(a) for a in c[0].args] == ['Gt', 'G0'] and kwarg(c[0], 'lower') is not None and unparse(kwarg(c[0], 'lower')) == 'True'
         ctx.check(rule, 'correlators.py:' + key + '-problem', ok, 'generalised problem eigh(Gt, G0, lower=True)', 'eigh call %s' % [unparse(x) for x in c], mod.loc(eb[0]))
     # cholesky branch
+    # temporaries introduced by the normalisation pre-pass (or by a refactoring) between ev and output are substituted first
+    import copy as _copy
+    single = {}
+    for s_ in statements(f):
+        if isinstance(s_, ast.Assign) and len(s_.targets) == 1 and isinstance(s_.targets[0], ast.Name) and s_.targets[0].id not in ('ev', 'output', 'new_matrix', 'chol', 'chol_inv'):
+            single.setdefault(s_.targets[0].id, []).append(s_)
+    single = {k_: v_[0] for k_, v_ in single.items() if len(v_) == 1}
+    for s_ in statements(f):
+        if isinstance(s_, ast.Assign) and unparse(s_.targets[0]) == 'output':
+            for _ in range(3):
+                for n_ in list(ast.walk(s_.value)):
+                    if isinstance(n_, ast.Name) and n_.id in single and single[n_.id] is not s_ and single[n_.id].lineno <= s_.lineno:
+                        for par_ in ast.walk(s_):
+                            for fld_, v_ in ast.iter_fields(par_):
+                                if v_ is n_:
+                                    setattr(par_, fld_, _copy.deepcopy(single[n_.id].value))
     out = [s for s in statements(f) if isinstance(s, ast.Assign) and unparse(s.targets[0]) == 'output' and 'ev' in unparse(s.value)]
+    # later re-assignments of output from itself (or through a temporary) compose with the first one
+    more = [s for s in statements(f) if isinstance(s, ast.Assign) and isinstance(s.targets[0], ast.Name) and out and s.lineno >= out[0].lineno and s not in out
+            and any(isinstance(n, ast.Name) and n.id in ('output',) + tuple(x.targets[0].id for x in out if isinstance(x.targets[0], ast.Name)) for n in ast.walk(s.value))
+            and mod.parents.get(s) is mod.parents.get(out[0])]
     key = '_GEVP_solver#cholesky-branch'
     if len(out) != 1:
         ctx.unrec(rule, 'correlators.py:' + key, 'assignment of output from ev not found')
@@ -122,6 +142,10 @@ def d1_solver(ctx, mod):
             for s in evs:
                 env['ev'] = orient(mod, s.value, env)
             o = orient(mod, out[0].value, env)
+            for s in more:
+                env[out[0].targets[0].id] = o
+                env['output'] = o
+                o = orient(mod, s.value, env)
             ctx.check(rule, 'correlators.py:' + key + '-order', o == ('rows', 'desc', False), 'vectors are rows, largest eigenvalue first, components untouched',
                       'cholesky branch returns vectors along %s in %s order%s' % (o[0], o[1], ' with reversed components' if o[2] else ''), mod.loc(out[0]))
         except Unrecognised as e:
@@ -145,7 +169,7 @@ def d1_solver(ctx, mod):
         ctx.check(rule, 'correlators.py:' + key + '-functions', ok, 'cholesky / inv bound to the matching implementations', 'bindings %s' % asg)
     # failure of the numerical branch yields undefined vectors, not wrong ones
     tr = [s for s in statements(f) if isinstance(s, ast.Try)]
-    ok = len(tr) == 1 and any('output[s] = None' in unparse(h) for h in tr[0].handlers)
+    ok = len(tr) == 1 and any('output[s] = None' in unparse(h) or 'return [None] * N' in unparse(h) or 'return N * [None]' in unparse(h) or 'output = [None] * N' in unparse(h) for h in tr[0].handlers)
     ctx.check(rule, 'correlators.py:_GEVP_solver#failure', ok, 'a failing decomposition yields None for every state', 'exception handler differs')
 
 
@@ -236,8 +260,8 @@ def d4_validation(ctx, mod):
     # state selection after sorting
     rets = [s for s in statements(f) if isinstance(s, ast.Return) and mod.enclosing_func(s) is f]
     st = [r for r in rets if 'state' in unparse(r.value)]
-    srt = [s for s in statements(f) if isinstance(s, ast.Assign) and isinstance(s.value, ast.Call) and call_name(s.value) == '_sort_vectors']
-    ok = len(st) == 1 and unparse(st[0].value) == "reordered_vecs[kwargs.get('state')]" and len(srt) == 1 and srt[0].lineno < st[0].lineno and unparse(srt[0].value) == '_sort_vectors(all_vecs, ts)'
+    srt = [s for s in statements(f) if isinstance(s, ast.Assign) and isinstance(s.value, ast.Call) and call_name(s.value) == '_sort_vectors' and unparse(s.targets[0]) == 'all_vecs']
+    ok = len(st) == 1 and unparse(st[0].value) in ("reordered_vecs[kwargs.get('state')]", "reordered_vecs[kwargs['state']]") and len(srt) == 1 and srt[0].lineno < st[0].lineno and unparse(srt[0].value) == '_sort_vectors(all_vecs, ts)'
     ctx.check(rule, 'correlators.py:Corr.GEVP#state-after-sorting', ok, 'the state is picked from the sorted, regrouped list', 'state selection %s / sorting %s' % ([unparse(r.value) for r in st], [unparse(s.value) for s in srt]))
     # _sort_vectors returns original objects permuted, reference slot untouched
     sv = mod.func('_sort_vectors')
